@@ -291,6 +291,33 @@ func (s *VSeg) Delete() { s.s.delete() }
 // Table is CreateTSTableIfNotExist(0).
 func (s *VSeg) Table() (*VTable, error) { return s.s.CreateTSTableIfNotExist(0) }
 
+// TickAndWait delivers a data timestamp to the real rotation goroutine (database.Tick -> tsEventCh) and returns when the
+// goroutine has processed exactly that event: it waits until the goroutine is parked in its select, sends, waits until
+// the event's retention run has been counted (so the event was really taken off the channel) and then until the
+// goroutine is parked again. InstallCounters must have been called. An error is a harness error, never a verdict.
+func (v *VDB) TickAndWait(minTs int64, horizon time.Duration) error {
+	if !v.waitRotationParked(horizon) {
+		return fmt.Errorf("rotation goroutine is not parked in its event loop after %s", horizon)
+	}
+	ts := minTs
+	if l := v.db.latestTickTime.Load(); ts-timeEventSnapDuration < l {
+		ts = l + timeEventSnapDuration
+	}
+	before := v.RetentionRuns()
+	v.db.Tick(ts)
+	deadline := time.Now().Add(horizon)
+	for v.RetentionRuns() == before {
+		if time.Now().After(deadline) {
+			return fmt.Errorf("rotation goroutine did not take Tick(%d) within %s", ts, horizon)
+		}
+		time.Sleep(200 * time.Microsecond)
+	}
+	if !v.waitRotationParked(horizon) {
+		return fmt.Errorf("rotation goroutine did not return to its event loop within %s of Tick(%d)", horizon, ts)
+	}
+	return nil
+}
+
 // ForceClose releases the segment's series index and shard tables whatever its reference count says. Harness cleanup
 // only: an execution that was aborted by a panic / deadlock in the code under test leaves segments that left the
 // controller's list (deferred delete) open for ever, which leaks their index goroutines and descriptors.
